@@ -27,7 +27,16 @@ import (
 )
 
 const verifRoot = "/verif"
-const repoRoot = "/repo"
+
+// repoRoot is the tree the engines are built from: /repo (what every registered command uses). VERIF_REPO names
+// another copy of the repository (a scratch worktree with a seeded change applied) so that several such copies can be
+// examined at once without touching /repo; the module file is then rewritten to point the replace directive there.
+var repoRoot = func() string {
+	if r := os.Getenv("VERIF_REPO"); r != "" {
+		return filepath.Clean(r)
+	}
+	return "/repo"
+}()
 
 type tierCfg struct {
 	Runs      int     // total runs across workers
@@ -104,8 +113,23 @@ func buildEngine(engine, overlay string) string {
 		defer funlock(lf)
 	}
 	tmpbin := fmt.Sprintf("%s.%d", bin, os.Getpid())
-	cmd := exec.Command("go1.26.8", "test", "-c", "-tags", "verif", "-overlay", overlay,
-		"-ldflags=-checklinkname=0", "-o", tmpbin, "./engines/"+engine)
+	args := []string{"test", "-c", "-tags", "verif", "-overlay", overlay, "-ldflags=-checklinkname=0", "-o", tmpbin}
+	if repoRoot != "/repo" {
+		mod, err := os.ReadFile(filepath.Join(verifRoot, "go.mod"))
+		if err != nil {
+			die2("go.mod: %v", err)
+		}
+		alt := filepath.Join(filepath.Dir(overlay), "go.alt.mod")
+		mod = []byte(strings.Replace(string(mod), "github.com/meshplus/bitxhub => /repo\n", "github.com/meshplus/bitxhub => "+repoRoot+"\n", 1))
+		sum, _ := os.ReadFile(filepath.Join(verifRoot, "go.sum"))
+		if os.WriteFile(alt, mod, 0644) != nil || os.WriteFile(strings.TrimSuffix(alt, ".mod")+".sum", sum, 0644) != nil {
+			die2("cannot write the alternative module file")
+		}
+		args = append(args, "-modfile="+alt)
+		fmt.Fprintf(os.Stderr, "verifctl: building from %s (VERIF_REPO), not from /repo\n", repoRoot)
+	}
+	args = append(args, "./engines/"+engine)
+	cmd := exec.Command("go1.26.8", args...)
 	cmd.Dir = verifRoot
 	cmd.Env = goEnv()
 	outb, err := cmd.CombinedOutput()
